@@ -7,6 +7,7 @@ import common
 from common import hexs, unhexs
 
 ALPHABET = b'AQg/+=?_ \n0Ffx'
+QALPHABET = b'=_5F23Dfa '
 WS = b' \t\n\v\f\r'
 B64 = b'ABCDEFGHIJKLMNOPQRSTUVWXYZabcdefghijklmnopqrstuvwxyz0123456789+/'
 
@@ -150,7 +151,7 @@ def rand_qpish(rng):
         if k < 4:
             out.append(rng.choice(b'abc XYZ_09\n\t'))
         elif k < 6:
-            out += b'=%02X' % rng.randrange(256)
+            out += b'=%02X' % (rng.choice([0x5f, 0x20, 0x3d, 0x3f, 0x0a, 0x09]) if rng.randrange(3) == 0 else rng.randrange(256))
         elif k == 6:
             out += b'=\n'
         elif k == 7:
@@ -267,6 +268,15 @@ def run(ck):
                 ex = []
     if ex:
         compare(ck, ex, drv, model, 'exhaustive<=%d' % maxlen, stats)
+    # the payload of a Q / B encoded word, exhaustively: every string of length <= maxlen over escapes of the
+    # characters that are special inside encoded words ('_' 5F, ' ' 20, '=' 3D, '?' 3F), '_', hex digits in both cases
+    ew = []
+    for n in range(maxlen + 1):
+        for t in itertools.product(QALPHABET, repeat=n):
+            ew.append(('r2047', b'=?x?Q?' + bytes(t) + b'?='))
+            if n <= maxlen - 1:
+                ew.append(('r2047', b'a =?x?q?' + bytes(t) + b'?= =?x?Q?' + bytes(t[:2]) + b'?= b'))
+    compare(ck, ew, drv, model, 'exhaustive encoded-word payloads<=%d' % maxlen, stats)
     nrand = 4000 if ck.tier == 'quick' else 200000
     rnd = []
     for i in range(nrand):
@@ -281,7 +291,7 @@ def run(ck):
     ck.coverage.update({
         'evaluations': stats['evaluations'],
         'distinct_nontrivial': len(stats['nontrivial']),
-        'rule': 'all strings of length <= %d over the alphabet %r for each of the 3 decoders (exhaustive), '
+        'rule': 'all strings of length <= %d over the alphabet %r for each of the 3 decoders (exhaustive), every Q encoded word whose payload is a string of that length over "=_5F23Dfa " (alone and next to a second word), '
                 'plus %d structured random strings per decoder (valid quanta, padding variants, foreign characters, '
                 'truncations, encoded-word fragments); non-trivial = contains >= 2 alphabet characters (b64), an "=" (qp), '
                 'an "=?" (rfc2047); distinct = distinct (decoder, input) pairs' % (maxlen, ALPHABET.decode(), nrand),
